@@ -71,11 +71,9 @@ RULE = ("linear records, 1-3 rules 'RULE r CATEGORY c CUTOFF x NEIGHBOURHOOD y C
         "non-trivial = some rule has >= 2 anchoring genes; distinct by flat encoding")
 
 
-def run(chk):
-    if not chk.build_and_audit():
-        return chk.finish(RULE)
+def run_linear(chk):
     rng = chk.rng
-    total = 4000 if chk.tier == "quick" else 60000
+    total = 3000 if chk.tier == "quick" else 40000
     cases, impl_outs = [], []
     for _ in range(total):
         length, rules, genes, hits = gen_case(rng)
@@ -124,8 +122,481 @@ def run(chk):
                        "implementation": out})
     model_outs = common.correspondence(chk, cases, impl_outs,
                                        describe=lambda flat: {"function": "detect_protoclusters_and_signatures (linear)", "payload": flat[2:]})
-    chk.crosscheck_vm(cases, model_outs)
-    return chk.finish(RULE)
+    chk.crosscheck_vm(cases, model_outs, k=(100 if chk.tier == "quick" else 800))
+
+
+
+# ------------------------------------------------------------------ the full pipeline (fn 2..4)
+NPROF = 5
+COND_TEMPLATES = [
+    "{a}", "{a}", "{a} or {b}", "{a} and {b}", "{a} and {b}", "minimum(2, [{a}, {b}, {c}])", "cds({a} and {b})",
+    "{a} and not {b}", "({a} or {b}) and {c}", "cds({a} and not {b}) or {c}", "{a} and cds({b} or {c})",
+    "minimum(2, [{a}, {b}]) or {c}",
+]
+EXT_TEMPLATES = ["{a}", "{a}", "cds({a} and {b})", "cds({a} or {b})", "cds({a} and not {b})"]
+
+
+def gen_rules(rng, scenario):
+    """ -> [(cutoff_kb, nb_kb, condition text, extender text or None, [superior indices])] """
+    n_rules = rng.choice([1, 2, 2, 3, 3, 4])
+    palette = rng.sample([1, 2, 5, 20], 2)
+    rules = []
+    shared = None
+    for i in range(n_rules):
+        cutoff = rng.choice(palette)
+        profs = rng.sample(range(NPROF), 3)
+        names = dict(zip("abc", (f"p{x}" for x in profs)))
+        cond = rng.choice(COND_TEMPLATES).format(**names)
+        if scenario == "cache" and n_rules >= 3:
+            # wide, narrow, wide: the two wide rules need a partner gene
+            wide, narrow = max(palette), min(palette)
+            cutoff = narrow if i % 2 else wide
+            if i % 2 == 0:
+                shared = shared or rng.choice(["{a} and {b}", "minimum(2, [{a}, {b}])", "{a} and {b} or {c}"]).format(**names)
+                cond = shared
+        ext = None
+        if rng.random() < 0.35:
+            eprofs = rng.sample(range(NPROF), 2)
+            ext = rng.choice(EXT_TEMPLATES).format(a=f"p{eprofs[0]}", b=f"p{eprofs[1]}")
+        sups = []
+        if i and rng.random() < 0.35:
+            sups = sorted(rng.sample(range(i), rng.randint(1, min(i, 2))))
+        rules.append((cutoff, rng.choice([0, 1, 3, 10]), cond, ext, sups))
+    return rules
+
+
+def rules_text(rules):
+    lines = []
+    for i, (cutoff, nb, cond, ext, sups) in enumerate(rules):
+        line = f"RULE r{i} CATEGORY c "
+        if sups:
+            line += "SUPERIORS " + ", ".join(f"r{s}" for s in sups) + " "
+        line += f"CUTOFF {cutoff} NEIGHBOURHOOD {nb} CONDITIONS {cond}"
+        if ext:
+            line += f" EXTENDERS {ext}"
+        lines.append(line)
+    return "\n".join(lines)
+
+
+def gen_layout(rng, cutoffs, circular, scenario):
+    """ -> (length, [(name, [(start, end, strand)...])]) ; genes have pairwise different (start, end) """
+    n_genes = rng.choice([1, 2, 3, 3, 4, 5, 6, 8, 10])
+    genes, seen = [], set()
+    narrow, wide = min(cutoffs), max(cutoffs)
+    if scenario in ("cache", "origin") and circular:
+        pos = rng.choice([0, 50, narrow, narrow + 200, narrow + 500])
+    else:
+        pos = rng.choice([0, 0, 50, 300, 1000])
+    for i in range(n_genes):
+        length = rng.choice([30, 90, 300, 900, 3000])
+        if rng.random() < 0.15 and genes:
+            ps_, pe_ = genes[-1][1][0][:2]
+            start = rng.randint(ps_, max(ps_, pe_ - 1))
+        else:
+            start = pos
+        end = start + length
+        if (start, end) not in seen:
+            seen.add((start, end))
+            genes.append((f"g{i}", [(start, end, rng.choice([1, -1]))]))
+        cutoff = rng.choice(cutoffs)
+        gap = rng.choice([0, 1, cutoff - 1, cutoff, cutoff + 1, cutoff + 500, 3 * cutoff, 12000, 30000])
+        pos = max(pos, end) + gap
+    first = min(s for _, [(s, _, _)] in genes)
+    last = max(e for _, [(_, e, _)] in genes)
+    if not circular:
+        return last + rng.choice([0, 0, 1, 50, 1000, 6000]), genes
+    cutoff = rng.choice(cutoffs)
+    if scenario in ("cache", "origin"):
+        ring_gap = rng.choice([wide - 1, wide - 1, wide - 300, wide, narrow + first + 100, 2 * narrow + first])
+    else:
+        ring_gap = rng.choice([0, 1, cutoff - 1, cutoff, cutoff + 1, cutoff + 500, 3 * cutoff, 12000, 40000])
+    length = last + max(0, ring_gap - first)
+    if rng.random() < 0.12 and first >= 2 and length > last:
+        # an origin-spanning gene in the free space around the origin
+        hi = rng.randint(last, length - 1)
+        lo = rng.randint(1, first - 1)
+        strand = rng.choice([1, -1])
+        parts = [(hi, length, strand), (0, lo, strand)]
+        if strand == -1:
+            parts.reverse()
+        genes.append((f"g{len(genes) + 5}", parts))
+    return max(length, 1), genes
+
+
+def enc_cond(cond):
+    """ a parsed rule_parser condition object -> flat encoding of the Gallina type C01.Model.cond """
+    kind = type(cond).__name__
+    neg = int(cond.negated)
+    if kind == "SingleCondition":
+        return [0, neg, int(cond.name[1:])]
+    if kind == "ScoreCondition":
+        return [1, neg, int(cond.name[1:]), cond.score]
+    if kind == "MinimumCondition":
+        opts = sorted(int(o[1:]) for o in cond.options)
+        return [2, neg, cond.count, len(opts)] + opts
+    if kind not in ("CDSCondition", "Conditions"):
+        raise ValueError(f"unexpected condition class {kind}")
+    out = [3 if kind == "CDSCondition" else 4, neg, len(cond.operands)]
+    for sub in cond.operands:
+        if type(sub).__name__ == "AndCondition":
+            out += [1, len(sub.operands)]
+            for leaf in sub.operands:
+                out += enc_cond(leaf)
+        else:
+            out += [0] + enc_cond(sub)
+    return out
+
+
+def enc_loc_parts(parts):
+    out = [len(parts)]
+    for s, e, st in parts:
+        out += [s, e, 2 if st is None else st]
+    return out
+
+
+def loc_triples(location):
+    return [(int(p.start), int(p.end), p.strand) for p in location.parts]
+
+
+def ring_oracle(length, circular, cutoff, anchors):
+    """ independent oracle for rules without extenders, anchors = [(start, end)] not spanning the origin:
+        connected components of 'closer than the cutoff' (ring distance on a circular record); each component's
+        core must start at a member's start, end at a member's end, contain every member and no anchor of
+        another component.  Returns the components as sorted lists of anchors. """
+    parent = list(range(len(anchors)))
+
+    def find(x):
+        while parent[x] != x:
+            x = parent[x]
+        return x
+
+    def gap(a, b):
+        (s1, e1), (s2, e2) = a, b
+        lin = max(max(s1, s2) - min(e1, e2), 0)
+        if not circular or lin == 0:
+            return lin
+        lo, hi = (a, b) if s1 <= s2 else (b, a)
+        return min(lin, max(lo[0] + length - hi[1], 0))
+    for a, b in itertools.combinations(range(len(anchors)), 2):
+        if gap(anchors[a], anchors[b]) < cutoff:
+            parent[find(a)] = find(b)
+    comps = {}
+    for i, iv in enumerate(anchors):
+        comps.setdefault(find(i), []).append(iv)
+    return sorted(sorted(c) for c in comps.values())
+
+
+def in_parts(iv, parts):
+    return any(s <= iv[0] and iv[1] <= e for s, e, _ in parts)
+
+
+RULE_FULL = ("full pipeline: linear and circular records (2:1 circular), 1-10 single-exon genes on both strands incl. nested/overlapping "
+             "ones with gaps on {0, 1, cutoff-1, cutoff, cutoff+1, far} and, on circular records, a first/last gap across the origin on "
+             "the same boundaries and (12 %) one origin-spanning two-part gene; 1-4 rules from the real parser with cutoffs drawn "
+             "from two of {1, 2, 5, 20} kb, neighbourhoods {0, 1, 3, 10} kb, conditions from 12 templates (single, and, or, not, "
+             "minimum, cds), EXTENDERS (35 %), SUPERIORS (35 %); 0-5 dynamic profile hits per gene; scenarios 'cache' (wide, narrow, "
+             "wide cutoffs with a partner gene across the origin) and 'origin' bias a quarter of the circular cases; genes have "
+             "pairwise different (start, end) because the order of equal-key anchors follows set iteration order; "
+             "non-trivial = at least one protocluster reported or an exception raised")
+
+
+
+def classify(length, circular, genes, anchors_by_rule, rules):
+    """ input-level classes of the recorded findings """
+    classes = set()
+    spanning = {i for i, (_, parts) in enumerate(genes) if len(parts) > 1}
+    if any(spanning & set(a) for a in anchors_by_rule.values()):
+        classes.add("origin_spanning_anchor")
+    return classes
+
+
+def build_case(chk, length, circular, text, genes, hits, scenario="plain"):
+    """ runs the real pipeline on one record/ruleset and encodes input and output; None if the input is rejected """
+    from antismash.common.hmm_rule_parser import cluster_prediction
+    profiles = [f"p{x}" for x in range(NPROF)]
+    meta = {"length": length, "circular": circular, "rules": text.split("\n"), "genes": genes,
+            "hits": {k: sorted(v) for k, v in hits.items()}, "scenario": scenario}
+    try:
+        record = detect_util.make_record(length, circular, genes)
+        ruleset = detect_util.make_ruleset(text, profiles, hits)
+    except Exception as exc:  # pylint: disable=broad-except
+        chk.count("generator_rejected_" + type(exc).__name__)
+        return None
+    # the record's gene order and the order of results_by_id are inputs of the model
+    index = {name: i for i, (name, _) in enumerate(genes)}
+    ordered = [(index[cds.get_name()], loc_triples(cds.location)) for cds in record.get_cds_features()]
+    dyn = cluster_prediction.find_dynamic_hits(record, list(ruleset.dynamic_profiles.values()), {})
+    flat = [PROP, 2, length, int(circular), len(ordered)]
+    for gid, parts in ordered:
+        flat += [gid] + enc_loc_parts(parts)
+    flat.append(len(dyn))
+    for name, dhits in dyn.items():
+        flat += [index[name], len(dhits)]
+        for hit in dhits:
+            flat += [int(hit.query_id[1:]), int(2 * hit.bitscore)]
+    flat.append(len(ruleset.rules))
+    for rule in ruleset.rules:
+        flat += [rule.cutoff, rule.neighbourhood] + enc_cond(rule.conditions)
+        flat += ([1] + enc_cond(rule.extenders)) if rule.extenders else [0]
+        flat += [len(rule.superiors)] + [int(s[1:]) for s in rule.superiors]
+    meta["parsed"] = [{"cutoff": r.cutoff, "nb": r.neighbourhood, "ext": bool(r.extenders),
+                       "sups": [int(s[1:]) for s in r.superiors]} for r in ruleset.rules]
+    try:
+        result = common.call_with_timeout(lambda: detect_util.detect(record, ruleset), 20)
+        protos = []
+        for proto in result.protoclusters:
+            protos.append([int(proto.product[1:])] + enc_loc_parts(loc_triples(proto.core_location))
+                          + enc_loc_parts(loc_triples(proto.location)))
+        protos.sort()
+        out = [0, len(protos)] + [x for p in protos for x in p]
+        meta["implementation"] = [(p[0], p[1:]) for p in protos]
+        chk.count(f"full_protoclusters_{min(len(protos), 4)}")
+    except Exception as exc:  # pylint: disable=broad-except
+        out = [1, err_code(exc)]
+        meta["implementation"] = "raises " + type(exc).__name__ + ": " + str(exc)[:200]
+        chk.count("full_error_" + common.ERR_NAME.get(out[1], type(exc).__name__))
+    return flat, out, meta
+
+
+def run_full(chk, known):
+    rng = chk.rng
+    total = 4000 if chk.tier == "quick" else 36000
+    cases, impl_outs, metas = [], [], []
+    # stored witnesses of the recorded findings first
+    for entry in known.values():
+        wit = entry.get("witness", {})
+        if "genes" not in wit:
+            continue
+        genes = [(n, [tuple(p) for p in parts]) for n, parts in wit["genes"]]
+        built = build_case(chk, wit["length"], wit["circular"], "\n".join(wit["rules"]), genes,
+                           {k: set(v) for k, v in wit["hits"].items()}, "witness")
+        if built:
+            built[2]["witness_of"] = entry["class"]
+            for lst, item in zip((cases, impl_outs, metas), built):
+                lst.append(item)
+    for _ in range(total):
+        circular = rng.random() < 0.67
+        scenario = rng.choice(["plain", "plain", "cache", "origin"]) if circular else "plain"
+        rules = gen_rules(rng, scenario)
+        length, genes = gen_layout(rng, [c * 1000 for c, *_ in rules], circular, scenario)
+        hits = {}
+        for name, _ in genes:
+            profs = {f"p{x}" for x in range(NPROF) if rng.random() < 0.3}
+            if profs:
+                hits[name] = profs
+        built = build_case(chk, length, circular, rules_text(rules), genes, hits, scenario)
+        if not built:
+            continue
+        for lst, item in zip((cases, impl_outs, metas), built):
+            lst.append(item)
+        chk.count("full_circular" if circular else "full_linear")
+        chk.count("full_scenario_" + scenario)
+        if any(len(parts) > 1 for _, parts in genes):
+            chk.count("full_with_origin_spanning_gene")
+        if any(r[3] for r in rules):
+            chk.count("full_with_extenders")
+        if any(r[4] for r in rules):
+            chk.count("full_with_superiors")
+    return cases, impl_outs, metas
+
+
+def judge_full(chk, cases, impl_outs, metas, known):
+    """ model (fn 2) vs implementation, cache specification (fn 4), anchors (fn 3), oracles, decision rule """
+    model_outs = common.run_driver(cases)
+    spec_outs = common.run_driver([[c[0], 4] + c[2:] for c in cases])
+    anchor_outs = common.run_driver([[c[0], 3] + c[2:] for c in cases])
+    stage_outs = common.run_driver([[c[0], 5] + c[2:] for c in cases])
+    chk.corr_functions["detect_protoclusters_and_signatures (full pipeline, fn 2)"] = len(cases)
+    disagreements = 0
+    reproduced = set()
+    for flat, impl, model, spec, anch, stage, meta in zip(cases, impl_outs, model_outs, spec_outs, anchor_outs, stage_outs, metas):
+        meta["stage"] = stage[0]
+        anchors = decode_anchors(anch)
+        classes = classify(meta["length"], meta["circular"], meta["genes"], anchors or {}, meta["rules"])
+        nontrivial = impl[0] == 1 or impl[1] > 0
+        sample = {k: meta[k] for k in ("length", "circular", "rules", "genes", "hits", "implementation")}
+        chk.note_case(flat, nontrivial, sample)
+        replay = dict(sample)
+        replay.update({"flat": flat, "model": model, "implementation_encoded": impl, "anchors_model": anchors,
+                       "function": "detect_protoclusters_and_signatures"})
+        # (1) the per-cutoff cache must be transparent (C03_cache_transparent): model with cache == model without
+        if model != spec:
+            chk.violation("broken-obligation", "model of the per-cutoff cache differs from per-rule evaluation", replay)
+        if impl == model:
+            verdict = spec_verdict(meta, impl, anchors)
+            if verdict is None:
+                continue
+            cls, what = verdict
+            if cls in known:
+                chk.count("known_" + cls)
+                if meta.get("witness_of") == cls:
+                    reproduced.add(cls)
+                chk.extra.setdefault("known_examples", {}).setdefault(cls, sample)
+            else:
+                replay["theorem_or_correspondence"] = "C03 specification evaluated on the implementation's output"
+                replay["finding_class"] = cls
+                chk.violation("counterexample", what, replay)
+            continue
+        disagreements += 1
+        # implementation differs from the model: is the implementation's output wrong w.r.t. the specification?
+        replay["theorem_or_correspondence"] = "detect_protoclusters_and_signatures vs C03.Model.pipeline"
+        replay["model_without_cache"] = spec
+        verdict = spec_verdict(meta, impl, anchors)
+        if verdict is not None:
+            replay["finding_class"] = verdict[0]
+            chk.violation("counterexample", verdict[1] + " (and the implementation no longer behaves like the model)", replay)
+        elif impl != spec and model == spec and impl[0] == 0 and model[0] == 0 and anchors is not None \
+                and impl_products(impl) != impl_products(model) and not classes:
+            chk.violation("counterexample", "protoclusters reported differ from those of the specification "
+                          "(rules evaluated one by one on the same record)", replay)
+        else:
+            chk.violation("broken-correspondence", "full pipeline: implementation and model differ", replay)
+    chk.extra["disagreements"] = chk.extra.get("disagreements", 0) + disagreements
+    for cls in sorted(reproduced):
+        chk.known(f"{known[cls]['id']} class={cls}: {known[cls]['what_fails']}")
+    return model_outs
+
+
+def decode_anchors(out):
+    if not out or out[0] != 0:
+        return None
+    res, pos = {}, 2
+    for _ in range(out[1]):
+        ridx, n = out[pos], out[pos + 1]
+        res[ridx] = out[pos + 2:pos + 2 + n]
+        pos += 2 + n
+    return res
+
+
+def decode_protos(out):
+    """ [0, n, (len, ridx, core, sur)...] (model) or [0, n, ridx, core, sur ...] (implementation) -> [(ridx, core, sur)] """
+    protos, pos = [], 2
+
+    def loc(pos):
+        n = out[pos]
+        parts = [tuple(out[pos + 1 + 3 * k: pos + 4 + 3 * k]) for k in range(n)]
+        return parts, pos + 1 + 3 * n
+    for _ in range(out[1]):
+        ridx = out[pos]
+        core, pos = loc(pos + 1)
+        sur, pos = loc(pos)
+        protos.append((ridx, core, sur))
+    return protos
+
+
+def impl_products(out):
+    return sorted(p[0] for p in decode_protos(out))
+
+
+def spec_verdict(meta, impl, anchors):
+    """ decidable specification on the implementation's output; None = satisfied (or not decidable here),
+        otherwise (finding class, description) """
+    length, circular, genes = meta["length"], meta["circular"], meta["genes"]
+    spanning = {i for i, (_, parts) in enumerate(genes) if len(parts) > 1}
+    anchors = anchors or {}
+    span_anchor = any(spanning & set(a) for a in anchors.values())
+    if impl[0] == 1:
+        stage = meta.get("stage")
+        if span_anchor:
+            cls = "origin_spanning_anchor"
+        elif circular and stage == 6 and impl[1] == common.ERR["ValueError"]:
+            cls = "merge_pair_nonforward_wrap"
+        elif circular and stage in (5, 6) and impl[1] == common.ERR["AssertionError"]:
+            cls = "merge_pair_uncapped_neighbourhood"
+        else:
+            cls = f"exception_stage_{stage}"
+        return cls, f"detection raises {common.ERR_NAME.get(impl[1], impl[1])} on a valid record"
+    if span_anchor:
+        return None     # chains through an origin-spanning anchor: outside the guard of the oracle
+    protos = decode_protos(impl)
+    rules = meta["parsed"]
+    verdict = superiors_verdict(meta, protos, anchors)
+    if verdict:
+        return verdict
+    for ridx, rule in enumerate(rules):
+        mine = [p for p in protos if p[0] == ridx]
+        ivs = [tuple(genes_by_id(genes)[g][0][:2]) for g in anchors.get(ridx, [])]
+        if rule["ext"] or rule["sups"]:
+            continue        # chains of rules with superiors: superiors_verdict (linear) / correspondence only (circular)
+        comps = ring_oracle(length, circular, rule["cutoff"], ivs)
+        # every component is covered by exactly one core, every core covers exactly one component
+        cover = []
+        for comp in comps:
+            holders = [k for k, p in enumerate(mine) if all(in_parts(iv, p[1]) for iv in comp)]
+            cover.append(holders)
+        ok = len(mine) == len(comps) and all(len(h) == 1 for h in cover) and len({h[0] for h in cover}) == len(comps)
+        if ok:
+            for comp, holders in zip(comps, cover):
+                core = mine[holders[0]][1]
+                starts = {s for s, _, _ in core}
+                ends = {e for _, e, _ in core}
+                tight = (len(core) == 1 and core[0][0] == min(s for s, _ in comp) and core[0][1] == max(e for _, e in comp)) or \
+                        (len(core) == 2 and core[0][1] == length and core[1][0] == 0
+                         and core[0][0] in {s for s, _ in comp} and core[1][1] in {e for _, e in comp})
+                if not tight:
+                    ok = False
+        if not ok:
+            full = any(sum(e - s for s, e, _ in p[1]) >= length for p in mine)
+            cls = "chain_not_maximal_long_way_round" if circular and long_way_round(length, rule["cutoff"], comps, mine) \
+                else "chain_not_maximal"
+            return cls, (f"rule r{ridx}: cores {[p[1] for p in mine]} are not the maximal cutoff-chains {comps} "
+                         f"of its anchoring genes")
+    return None
+
+
+def superiors_verdict(meta, protos, anchors):
+    """ linear records, rules without extenders: a chain of an inferior rule is reported iff no chain of one of its
+        superiors covers its anchoring genes (the hull of the superior chain contains the hull of the inferior one) """
+    if meta["circular"]:
+        return None
+    rules, genes = meta["parsed"], genes_by_id(meta["genes"])
+    hulls = {}
+    for ridx, rule in enumerate(rules):
+        ivs = [tuple(genes[g][0][:2]) for g in anchors.get(ridx, [])]
+        hulls[ridx] = [(min(s for s, _ in c), max(e for _, e in c)) for c in ring_oracle(meta["length"], False, rule["cutoff"], ivs)]
+    for ridx, rule in enumerate(rules):
+        if not rule["sups"] or rule["ext"] or any(rules[s]["ext"] for s in rule["sups"]):
+            continue
+        reported = {(p[1][0][0], p[1][0][1]) for p in protos if p[0] == ridx and len(p[1]) == 1}
+        for hull in hulls[ridx]:
+            covered = any(o[0] <= hull[0] and hull[1] <= o[1] for s in rule["sups"] for o in hulls[s])
+            if hull in reported and covered:
+                return "superior_not_applied", (f"rule r{ridx}: the chain {hull} is reported although a chain of a superior rule "
+                                                f"covers its core genes")
+            if hull not in reported and not covered:
+                return "superior_partial_overlap", (f"rule r{ridx}: the chain {hull} is dropped although no chain of its superiors "
+                                                    f"{[hulls[s] for s in rule['sups']]} covers its core genes")
+    return None
+
+
+def long_way_round(length, cutoff, comps, mine):
+    """ class of finding C03-K5: some reported core is a single part that covers anchors of two different chains, one of
+        which reaches across the origin (its members are within the cutoff only through the origin) """
+    for _, core, _ in mine:
+        if len(core) != 1:
+            continue
+        inside = [c for c in comps if any(in_parts(iv, core) for iv in c)]
+        if len(inside) >= 2 or any(max(e for _, e in c) - min(s for s, _ in c) > 0 and
+                                   ring_oracle(length, False, cutoff, c) != [sorted(c)] for c in inside):
+            return True
+    return False
+
+
+def genes_by_id(genes):
+    return {i: parts for i, (_, parts) in enumerate(genes)}
+
+def run(chk):
+    if not chk.build_and_audit():
+        return chk.finish(RULE)
+    known = {f["class"]: f for f in common.load_known_findings("C03") if f.get("status") == "known"}
+    run_linear(chk)
+    cases, impl_outs, metas = run_full(chk, known)
+    try:
+        model_outs = judge_full(chk, cases, impl_outs, metas, known)
+        chk.crosscheck_vm(cases, model_outs, k=(100 if chk.tier == "quick" else 700))
+    except common.BuildError as exc:
+        chk.violation("broken-correspondence", "the extracted model could not be evaluated: " + exc.what, {"log": exc.log})
+    return chk.finish(RULE + " || " + RULE_FULL)
 
 
 def replay(chk, path):
